@@ -472,7 +472,7 @@ func initMiscIntrinsics() {
 		checkPoison("hash.WriteString", a[1])
 		h := getH(fr, a[0])
 		h.s = strConcat(h.s, lift(a[1]))
-		return intV(strLen(lift(a[1]))), true
+		return fr.intV(strLen(lift(a[1]))), true
 	})
 	reg(hp+"Write", func(fr *frame, a []value) (value, bool) {
 		h := getH(fr, a[0])
